@@ -711,6 +711,8 @@ def single_caller_helpers(facts, anchors, pinned):
             continue
         if any(cc.fn == fn for cc in h.calls()):
             continue   # recursive
+        if len(ss) > 1 and any(cc.fn == "fjall::batch::Batch::commit" for cc in h.calls()):
+            continue   # role: a shared function that commits a journal batch is a unit of atomicity - rules look at it as a function
         if any(cc.fn in ("std::time::SystemTime::now", "std::time::SystemTime::elapsed", "std::time::Instant::now") for cc in h.calls()):
             continue   # role: a predicate that reads the clock (rules reason about where the clock is read: keep the call visible)
         if any(_is_key_constructor_site(b, c) for (b, c) in ss):
